@@ -982,3 +982,63 @@ Theorem C16_s_from_iter_exact_log :
          w.
 Proof. exact (@s_from_iter_overflow). Qed.
 Print Assumptions C16_s_from_iter_exact_log.
+
+(* ------------------------------------------------------------------------
+   "Exactly the container obtained by inserting the items one at a time in
+   order" for ANY operand-determined == (Proofs/PureEqBulk.v, [Related E ck cq R],
+   R an arbitrary relation on classes): [bulk_rel] is the fold of the one-step
+   insert of Proofs/PureEq.v over the items, None = overflow.
+   ------------------------------------------------------------------------ *)
+Require Import Proofs.PureEq Proofs.PureEqBulk.
+
+Theorem C16_extend_any_relation :
+  forall (K V Q T : Type) (E : env K V Q T) (debug : bool) (ck : K -> N) (cq : Q -> N) (R : N -> N -> bool)
+         (HR : Related E ck cq R) (nx : T -> ans * T) (items : list (K * V)),
+    (forall s, fst (nx s) <> Boom) -> forall w : world K V T, WF (self w) ->
+    wp (extend_loop E debug nx items)
+       (fun (_ : unit) (w' : world K V T) =>
+          WF (self w') /\ cap (self w') = cap (self w) /\
+          bulk_rel ck R (Spec.elems (self w)) items (cap (self w)) = Some (Spec.elems (self w')))
+       (fun w' : world K V T =>
+          WF (self w') /\ cap (self w') = cap (self w) /\
+          bulk_rel ck R (Spec.elems (self w)) items (cap (self w)) = None /\
+          exists items1 k v items2,
+            items = items1 ++ (k, v) :: items2 /\
+            bulk_rel ck R (Spec.elems (self w)) items1 (cap (self w)) = Some (Spec.elems (self w')) /\
+            find_rel ck R (ck k) (Spec.elems (self w')) = None /\
+            len (self w') = cap (self w')) w.
+Proof. exact (fun K V Q T E debug ck cq R HR => extend_loop_rel E debug ck cq R HR). Qed.
+Print Assumptions C16_extend_any_relation.
+
+Theorem C16_from_iter_any_relation :
+  forall (K V Q T : Type) (E : env K V Q T) (debug : bool) (ck : K -> N) (cq : Q -> N) (R : N -> N -> bool)
+         (HR : Related E ck cq R) (nx : T -> ans * T) (items : list (K * V)) (w : world K V T),
+    (forall s, fst (nx s) <> Boom) -> WF (self w) -> len (self w) = 0 ->
+    wp (from_iter E debug nx items)
+       (fun (_ : unit) (w' : world K V T) =>
+          WF (self w') /\ cap (self w') = cap (self w) /\
+          bulk_rel ck R [] items (cap (self w)) = Some (Spec.elems (self w')))
+       (fun _ : world K V T => bulk_rel ck R [] items (cap (self w)) = None) w.
+Proof. exact (fun K V Q T E debug ck cq R HR => from_iter_rel E debug ck cq R HR). Qed.
+Print Assumptions C16_from_iter_any_relation.
+
+(* the fold is the one-at-a-time insertion, and for R = equality of classes it is the lawful list machine *)
+Theorem C16_bulk_rel_is_fold :
+  forall (K V : Type) (ck : K -> N) (R : N -> N -> bool) (l items : list (K * V)) (cap : nat),
+    bulk_rel ck R l items cap = fold_left (bulk_step ck R cap) items (Some l).
+Proof. exact (fun K V => @bulk_rel_is_fold_insert K V). Qed.
+Print Assumptions C16_bulk_rel_is_fold.
+
+Theorem C16_bulk_rel_lawful :
+  forall (K V : Type) (ck : K -> N) (R : N -> N -> bool) (l items : list (K * V)) (cap : nat),
+    (forall a b, R a b = N.eqb a b) -> bulk_rel ck R l items cap = Bulk.l_extend ck cap l items.
+Proof. exact (fun K V => @bulk_rel_eqb K V). Qed.
+Print Assumptions C16_bulk_rel_lawful.
+
+(* under "<=" the order of the items decides how many entries there are, and whether the build overflows *)
+Theorem C16_example_order_matters :
+  bulk_rel (fun n : N => n) N.leb [] [(5%N, 50); (3%N, 30); (4%N, 40)] 3 = Some [(5%N, 50); (3%N, 40)] /\
+  bulk_rel (fun n : N => n) N.leb [] [(3%N, 30); (4%N, 40); (5%N, 50)] 3 = Some [(3%N, 50)] /\
+  bulk_rel (fun n : N => n) N.leb [] [(5%N, 50); (4%N, 40); (3%N, 30)] 2 = None.
+Proof. exact (conj bulk_rel_leb_534 (conj bulk_rel_leb_345 (proj1 bulk_rel_leb_overflow))). Qed.
+Print Assumptions C16_example_order_matters.
